@@ -22,7 +22,9 @@ CONSTANTS N, Apis, Modes, LossKinds,
           FixEvent,    \* Channel._event_pending does not clear the event of a closed channel
           FixEnsure,   \* ServiceRequestingTransport.ensure_session tests `active` in its sleep loop
           FixProxy,    \* ProxyCommand.recv reports end of file when the process has exited
-          Omit         \* "none" | "unlink" | "clear" | "notify" | "cl_unlink"
+          Omit,        \* "none" | "unlink" | "clear" | "notify" | "cl_unlink"
+          NoPoll       \* families in {"open", "global", "rekey", "auth"} whose wait is changed to test `active` once on
+                       \* entry and then wait on the event alone ({} = the code: every 0.1 s `active` is polled)
 
 VARIABLES active, pclosed, sclosed, tt, cl, loss,
           ch,          \* the user's channel: [linked, closed, event, ready, status]
@@ -47,7 +49,7 @@ Family(api) ==
     [] api \in {"exec_command", "invoke_shell", "invoke_subsystem", "get_pty"} -> "chanreq"
     [] api = "recv_exit_status" -> "status"
     [] api \in {"open_channel", "open_session"} -> "open"
-    [] api = "global_request" -> "global"
+    [] api \in {"global_request", "request_port_forward"} -> "global"
     [] api = "renegotiate_keys" -> "rekey"
     [] api \in {"auth_password", "auth_publickey", "auth_none", "auth_interactive"} -> "auth"
     (* the same calls on a ServiceRequestingTransport *)
@@ -58,7 +60,8 @@ Family(api) ==
     [] OTHER -> "unknown"
 
 AllApis == {"recv", "recv_stderr", "send", "sendall", "exec_command", "invoke_shell", "invoke_subsystem", "get_pty",
-            "recv_exit_status", "open_channel", "open_session", "global_request", "renegotiate_keys",
+            "recv_exit_status", "open_channel", "open_session", "global_request", "request_port_forward",
+            "renegotiate_keys",
             "auth_password", "auth_publickey", "srt_auth_password", "srt_auth_publickey", "accept"}
 
 (* families whose wait honours a caller-supplied timeout *)
@@ -200,6 +203,9 @@ CLStep == ClTest \/ ClClear \/ ClPclose \/ ClJoin \/ ClUnlink \/ ClSockClose
 
 ----------------------------------------------------------------------------
 (* callers *)
+(* the polling loops leave as soon as `active` is cleared; a loop that only waits for its event depends on    *)
+(* the shutdown block setting that event - which close() makes it skip                                        *)
+SeesInactive(f) == ~active /\ f \notin NoPoll
 (* writing a request to a connection that is already lost may fail in the caller's thread (EOFError /        *)
 (* ProxyCommandFailure from the packetizer) or be dropped silently (_send_user_message on an inactive         *)
 (* transport)                                                                                                 *)
@@ -261,22 +267,30 @@ OcRegister(w) == /\ wpc[w] = "oc_register" /\ Goto(w, "oc_send") /\ ocreg' = ocr
                  /\ UNCHANGED <<active, pclosed, sclosed, tt, cl, loss, ch, completion, authev, svc, ocev, cvwait, cvnote>>
 OcSend(w) == /\ wpc[w] = "oc_send" /\ (Goto(w, "oc_poll") \/ (SendMayFail /\ Finish(w, "raised")))
              /\ Keep /\ UNCHANGED shared
-OcPoll(w) == /\ wpc[w] = "oc_poll" /\ (~active \/ w \in ocev)
+OcPoll(w) == /\ wpc[w] = "oc_poll" /\ (SeesInactive("open") \/ w \in ocev)
              /\ Finish(w, IF ~active THEN "raised" ELSE "returned")
              /\ Keep /\ UNCHANGED shared
 (* global_request(wait=True): new completion_event; send; poll {wait(0.1); not active -> None; set -> break} *)
-GrNew(w) == /\ wpc[w] = "gr_new" /\ Goto(w, "gr_send") /\ completion' = FALSE /\ Keep
+(* global_request returns None when the session ended; request_port_forward tests `active` itself and turns   *)
+(* None into SSHException                                                                                     *)
+GrEnded(w) == IF wapi[w] = "request_port_forward" THEN "raised" ELSE "returned"
+GrNew(w) == /\ wpc[w] = "gr_new" /\ Keep
+            /\ IF ~active /\ ("global" \in NoPoll \/ wapi[w] = "request_port_forward")
+               THEN Finish(w, GrEnded(w)) /\ completion' = completion
+               ELSE Goto(w, "gr_send") /\ completion' = FALSE
             /\ UNCHANGED <<active, pclosed, sclosed, tt, cl, loss, ch, authev, svc, ocreg, ocev, cvwait, cvnote>>
 GrSend(w) == /\ wpc[w] = "gr_send" /\ (Goto(w, "gr_poll") \/ (SendMayFail /\ Finish(w, "raised")))
              /\ Keep /\ UNCHANGED shared
-GrPoll(w) == /\ wpc[w] = "gr_poll" /\ (~active \/ completion) /\ Finish(w, "returned") /\ Keep /\ UNCHANGED shared
+GrPoll(w) == /\ wpc[w] = "gr_poll" /\ (SeesInactive("global") \/ completion)
+             /\ Finish(w, IF ~active THEN GrEnded(w) ELSE "returned")
+             /\ Keep /\ UNCHANGED shared
 (* renegotiate_keys: new completion_event; _send_kex_init (raises on a closed packetizer); same poll, raises *)
 RkNew(w) == /\ wpc[w] = "rk_new" /\ Goto(w, "rk_send") /\ completion' = FALSE /\ Keep
             /\ UNCHANGED <<active, pclosed, sclosed, tt, cl, loss, ch, authev, svc, ocreg, ocev, cvwait, cvnote>>
 RkSend(w) == /\ wpc[w] = "rk_send"
              /\ IF pclosed THEN Finish(w, "raised") ELSE (Goto(w, "rk_poll") \/ (SendMayFail /\ Finish(w, "raised")))
              /\ Keep /\ UNCHANGED shared
-RkPoll(w) == /\ wpc[w] = "rk_poll" /\ (~active \/ completion)
+RkPoll(w) == /\ wpc[w] = "rk_poll" /\ (SeesInactive("rekey") \/ completion)
              /\ Finish(w, IF ~active THEN "raised" ELSE "returned")
              /\ Keep /\ UNCHANGED shared
 (* Transport.auth_*: active test; AuthHandler.auth_* sends SERVICE_REQUEST with _send_message;                *)
@@ -290,7 +304,7 @@ AuReq(w) == /\ wpc[w] \in {"au_req", "sr_send"}
                     \/ SendMayFail /\ Finish(w, "raised") /\ authev' = authev
             /\ Keep
             /\ UNCHANGED <<active, pclosed, sclosed, tt, cl, loss, ch, completion, svc, ocreg, ocev, cvwait, cvnote>>
-AuPoll(w) == /\ wpc[w] = "au_poll" /\ (~active \/ authev = "set")
+AuPoll(w) == /\ wpc[w] = "au_poll" /\ (SeesInactive("auth") \/ authev = "set")
              /\ Finish(w, IF ~active THEN "raised" ELSE "returned")
              /\ Keep /\ UNCHANGED shared
 (* ServiceRequestingTransport.ensure_session: active test; accepted? else send SERVICE_REQUEST and           *)
